@@ -111,7 +111,7 @@ def snapshot(d):
         return x
 
     def msec(s):
-        return dict(opts=opts(s.options), content=keep(s.content) if _jsonable(s.content) else {'__unjsonable__': repr(s.content)})
+        return dict(opts=opts(s.options), content=keep(s.content) if _jsonable(s.content) else {'__unjsonable__': sl.live_dump(s.content)})
 
     def dsec(s):
         return dict(opts=opts(s.options), content=None if s.content is None else bytes(s.content).hex())
@@ -547,6 +547,9 @@ def gen_stats_tree(rng):
                                             {'lines changed': 7, 'blobs': 1},
                                             {'insertions': 2, 'deletions': 1, 'lines changed': 10},
                                             {'custom': 'only'}, {'insertions': 4}, {'deletions': 3, 'lines changed': 0}])
+            elif rng.random() < 0.3:
+                # ... or the keys the specification documents for files (similarity of a rename/copy, operation, revisions)
+                meta.update(gc.gen_doc_meta(rng, ints_only=True))
             o = {}
             content = None
             counts = None
@@ -611,7 +614,8 @@ class Stats(Family):
     name = 'stats'
     rule = ('trees with 0-3 changes x 0-3 files whose diffs are assembled from generated hunk ASTs with known counts '
             '(garbage lines between hunks, unix/dos, declared/undeclared line endings, 8 diff encodings incl. UTF-16/32, '
-            'binary/empty/absent/unparsable diffs, pre-existing stats dictionaries with custom keys); generate_stats '
+            'binary/empty/absent/unparsable diffs, pre-existing stats dictionaries with custom keys and the keys the '
+            'specification documents); generate_stats '
             'once and twice; non-trivial = at least one text diff; distinct by tree')
 
     def cases(self, tier, rng, prop_id):
@@ -969,7 +973,8 @@ class Alias(Family):
     name = 'alias'
     rule = ('random interleavings (8-20 operations) over up to 4 live trees: construct (with keyword attributes), parse '
             'with one shared reader object, add_change/add_file, typed attribute assignment with right and wrong '
-            'values, in-place mutation of metadata and options dictionaries, serialise with one shared writer object, '
+            'values, in-place mutation of metadata and options dictionaries (incl. live values JSON has no notation '
+            'for: iterators, sets, views), serialise with one shared writer object, '
             '==/!=/repr, generate_stats; after every operation every live tree is snapshotted and compared with the '
             'value-level model; non-trivial = at least two trees alive and one mutation; distinct by operation list')
 
@@ -981,6 +986,17 @@ class Alias(Family):
             yield dict(kind='ops', ops=[['parse', shared], ['parse', shared], ['to_bytes', 0], ['to_bytes', 1],
                                         ['meta_nested_put', 0, ['f', ci, fi], key, sub, 'edited'],
                                         ['to_bytes', 0], ['to_bytes', 1], ['eq', 0, 1]])
+        # metadata holding live values JSON has no notation for (one-shot iterators, sets, views, ...): serialising either
+        # fails every time or succeeds every time with the same bytes, and never uses the value up
+        people = ['alice', 'bob', 'carol']
+        for kind in sl.LIVE_KINDS:
+            for path, pre in (('main', []), (['c', 0], [['add_change', 0, []]]),
+                              (['f', 0, 0], [['add_change', 0, []], ['add_file', 0, 0, [['meta', {'d': {'path': 'a'}}]]]])):
+                for nested in (False, True):
+                    live = {'__live__': kind, 'items': people}
+                    yield dict(kind='ops', ops=[['new', []]] + pre + [
+                        ['meta_put', 0, path, 'reviewers', {'names': live} if nested else live],
+                        ['to_bytes', 0], ['to_bytes', 0], ['eq', 0, 0], ['to_bytes', 0], ['new', []], ['eq', 0, 1], ['to_bytes', 0]])
         for i in range(400 if tier == 'quick' else 8000):
             ops = gen_ops(rng, rng.randint(8, 20))
             if i % 4 == 0:
@@ -1004,6 +1020,8 @@ class Alias(Family):
         obs, steps, orc = self._impl(c)
         if any(o[0] == 'meta_nested_put' for o in c['ops']):
             return None         # nested in-place edits: judged by the frame oracle alone
+        if '__live__' in json.dumps(c['ops']):
+            return None         # live values: judged by the oracles alone (observers change nothing, same bytes twice)
         if has_mixed_keys(c['ops']):
             # a dictionary with an int key next to a str key: equal to its reordering, yet not serialisable (the keys cannot
             # be sorted); the value-level model has no such value, so these cases are judged by the oracles alone
@@ -1126,12 +1144,39 @@ def numeric_only_difference(a, b):
     return json.dumps(norm(a), sort_keys=True) == json.dumps(norm(b), sort_keys=True)
 
 
+def _near_equal_texts():
+    import unicodedata
+    seeds = ['Caf\u00e9 au lait\n', '\u212b ngstr\u00f6m\n', '10 \u212a\n', '\ufb01le \uff21\uff22\n', '\u1e69\u0323\n', '\uf900 \u2126\n', '\u00bd \u2460\n',
+             '\u0130stanbul \u017fs\n', 'Stra\u00dfe\n']
+    pairs = []
+    for t in seeds:
+        for form in ('NFC', 'NFD', 'NFKC', 'NFKD'):
+            u = unicodedata.normalize(form, t)
+            if u != t:
+                pairs.append((t, u))
+        for u in (t.lower(), t.upper(), t.casefold()):
+            if u != t:
+                pairs.append((t, u))
+    pairs += [('a b\n', 'a  b\n'), ('x\n', 'x\r\n'), ('x', 'x\n'), ('x \n', 'x\n'), ('\ufeffx\n', 'x\n'), ('1\n', '01\n'), ('1.0\n', '1\n'),
+              ('a\tb\n', 'a b\n'), ('x\n', ' x\n'), ('a\u00a0b\n', 'a b\n'), ('a\u200bb\n', 'ab\n'), ('\u0430\n', 'a\n')]
+    seen, out = set(), []
+    for pr in pairs:
+        if pr not in seen:
+            seen.add(pr)
+            out.append(pr)
+    return out
+
+
+NEAR_EQUAL_TEXTS = _near_equal_texts()
+
+
 class Attrs(Family):
     """C19: every attribute name x candidate value on a tree, and single-field perturbations with == / to_bytes."""
     name = 'attrs'
     rule = ('for random trees: every attribute name (own and forwarded) at every section x 26 candidate values of right '
             'and wrong type/choice (assignment either stores or raises leaving the tree unchanged); unknown constructor '
-            'attributes; every single-field perturbation of a tree compared with the original by ==, != and to_bytes; '
+            'attributes; every single-field perturbation of a tree compared with the original by ==, != and to_bytes, '
+            'incl. pairs of near-equal texts (Unicode normal forms, case, white space, newline style); '
             'non-trivial = the tree has at least one change with a file; distinct by operation list')
 
     def cases(self, tier, rng, prop_id):
@@ -1184,6 +1229,21 @@ class Attrs(Family):
                 yield dict(kind='perturb-meta', ops=base + base_shift(base) + [['meta_put', 0, ['f', ci, fi], 'who', v0],
                                                                                ['meta_put', 1, ['f', ci, fi], 'who', v1], ['eq', 0, 1],
                                                                                ['to_bytes', 0], ['to_bytes', 1], ['eq', 0, 1]])
+            # values a person would call "the same" and that are nevertheless different content: canonically / compatibly
+            # equivalent Unicode spellings, case, white space, newline style, a leading U+FEFF, numerals
+            for a0, a1 in NEAR_EQUAL_TEXTS:
+                for p in ('main', ['c', ci]):
+                    yield dict(kind='perturb', ops=base + base_shift(base) + [['set', 0, p, 'preamble', {'s': a0}], ['set', 1, p, 'preamble', {'s': a1}],
+                                                                              ['eq', 0, 1], ['eq', 1, 0], ['to_bytes', 0], ['to_bytes', 1]])
+                for p in ('main', ['c', ci], ['f', ci, fi]):
+                    yield dict(kind='perturb-meta', ops=base + base_shift(base) + [['meta_put', 0, p, 'who', a0], ['meta_put', 1, p, 'who', a1],
+                                                                                   ['eq', 0, 1], ['to_bytes', 0], ['to_bytes', 1]])
+                    yield dict(kind='perturb-meta', ops=base + base_shift(base) + [['meta_put', 0, p, a0, 1], ['meta_put', 1, p, a1, 1],
+                                                                                   ['eq', 0, 1], ['to_bytes', 0], ['to_bytes', 1]])
+                yield dict(kind='perturb', ops=base + base_shift(base) + [
+                    ['set', 0, ['f', ci, fi], 'diff', {'b': ('-' + a0 + '\n').encode('utf-8').hex()}],
+                    ['set', 1, ['f', ci, fi], 'diff', {'b': ('-' + a1 + '\n').encode('utf-8').hex()}],
+                    ['eq', 0, 1], ['eq', 1, 0], ['to_bytes', 0], ['to_bytes', 1]])
             for key, v in [('p', True), ('p', 1), ('p', 2), ('z', None)]:
                 yield dict(kind='perturb-meta', ops=base + base_shift(base) + [['meta_put', 1, ['f', ci, fi], key, v], ['eq', 0, 1],
                                                                                ['to_bytes', 0], ['to_bytes', 1]])
